@@ -203,6 +203,36 @@ pub fn worker(w: &mut Worker) {
             }
         }
     }
+    // very long lines (one character class repeated, and a long well-formed line among malformed ones)
+    for (n, (unit, planted)) in [
+        ("a", None),
+        (" ", None),
+        ("\"a\" ", None),
+        ("#", None),
+        ("\\\\", None),
+        ("a=", None),
+        (":", None),
+        ("\"", Some("MissingEndQuotes")),
+    ]
+    .iter()
+    .enumerate()
+    {
+        for reps in [10_000usize, 100_001usize] {
+            if !w.take() {
+                continue;
+            }
+            let _ = n;
+            let long = if planted.is_some() { format!("cmd {}", unit.repeat(reps)) } else { format!("cmd {}", unit.repeat(reps)) };
+            let text = format!("x = set 1\n{}\ny = set 2", long);
+            let pl: Vec<(usize, &'static str)> = match planted {
+                Some(k) => vec![(2, *k)],
+                None => vec![],
+            };
+            // an odd number of quotes leaves the last one unterminated; an even number is well-formed
+            let pl = if planted.is_some() && reps % 2 == 0 { vec![] } else { pl };
+            run_text(w, &text, &pl, "long-line");
+        }
+    }
     // (b) token sequences
     let tl = tier.pick(4usize, 5usize);
     for seq in Strings::new(&TOKENS[..], 0, tl) {
@@ -251,7 +281,7 @@ pub fn crash_sig(_case: &Value, kind: &str) -> String {
     kind.to_string()
 }
 
-pub const RULE: &str = "enumeration (no duplicates within a phase): planted malformed line (6 kinds x 4-5 spellings) at every position among every choice of well-formed lines (pool of 10), LF and CRLF; pairs of malformed lines; every sequence of tokens from a pool of 14; every text up to the length bound over {a SP \" \\ # = : ! $ { LF CR} (+TAB, e-acute). Oracle: no panic; Ok => one instruction per line with line numbers 1..n, no source tag, blank/comment lines Empty, each line parses alone to the same instruction; Err(kind,k) => 1<=k<=n and line k alone is rejected with the same kind; planted error => that kind and line. Non-trivial: the text contains one of \" \\ # = : !; states = distinct (verdict, error kind, error line, line count) classes, transitions = parse_text calls on whole texts";
+pub const RULE: &str = "enumeration (no duplicates within a phase): planted malformed line (6 kinds x 4-5 spellings) at every position among every choice of well-formed lines (pool of 10), LF and CRLF; pairs of malformed lines; every sequence of tokens from a pool of 14; lines of 10^4 and 10^5 repeated characters of each class; every text up to the length bound over {a SP \" \\ # = : ! $ { LF CR} (+TAB, e-acute). Oracle: no panic; Ok => one instruction per line with line numbers 1..n, no source tag, blank/comment lines Empty, each line parses alone to the same instruction; Err(kind,k) => 1<=k<=n and line k alone is rejected with the same kind; planted error => that kind and line. Non-trivial: the text contains one of \" \\ # = : !; states = distinct (verdict, error kind, error line, line count) classes, transitions = parse_text calls on whole texts";
 pub const ASSUMPTIONS: &[&str] = &["no !include_files directive in the texts (C14 covers includes)"];
 pub const EXHAUSTIVE: bool = true;
 pub const WALL_CAP_S: (u64, u64) = (50, 1500);
